@@ -22,7 +22,7 @@ MODEL_TRUST = ["modelled, not verified: Go maps and slices as association lists 
 PROPS = {
     "C01": dict(
         props_files=["Avfs/Props/C01.lean", "Avfs/Props/C01_more.lean"],
-        parts=[dict(name="memfs"), dict(name="memfs-small"), dict(name="kernel-small", only_tier="thorough"), dict(name="kernel"), dict(name="orefa"), dict(name="kernel-orefa")],
+        parts=[dict(name="memfs"), dict(name="memfs-small"), dict(name="kernel-small", only_tier="thorough", args=["-scn", "namespace,link-budget,walk-answers,file-admin"]), dict(name="kernel"), dict(name="orefa"), dict(name="kernel-orefa")],
         trusted=MODEL_TRUST + ["oracle: the Linux kernel through OsFS / package os in a chroot-ed child process on a fresh tmpfs directory (corr kernel): MemFS itself, not the model, is compared call by call and tree by tree"],
         assumptions=["administrator; Linux emulation; the root directory is not an operand of remove/rename in the kernel comparison (the oracle's scratch root is not a file-system root)", "set-id bits are not generated in the kernel comparison (kernel-specific inheritance / clearing rules)"],
         not_yet_proved=["MemFS = POSIX reference is proved for Mkdir, Remove, Stat/Lstat, OpenFile (every flag value), Link, Truncate, Chmod, Chown (administrator) and Rename (file and directory sources) on clean absolute paths that meet no symbolic link (C01_*_posix over the component-wise resolution walkPath; the corners where MemFS deviates are explicit hypotheses with kernel-checked witnesses); RemoveAll, MkdirAll, Symlink/Readlink, the composites, paths through links, relative paths: equality with Linux is carried by the direct impl≟kernel oracle run and its ledger of divergence classes", "OrefaFS: executable model (Avfs/FS/Orefa.lean) tied by corr orefa (tree + path index after every call) and compared with the kernel by corr kernel-orefa; no theorems about it yet"],
@@ -101,14 +101,14 @@ PROPS = {
     ),
     "C02": dict(
         props_files=["Avfs/Props/C02.lean"],
-        parts=[dict(name="memfs-files"), dict(name="memfs-small"), dict(name="kernel-small", only_tier="thorough"), dict(name="kernel-files"), dict(name="orefa"), dict(name="kernel-orefa")],
+        parts=[dict(name="memfs-files"), dict(name="memfs-small"), dict(name="kernel-small", only_tier="thorough", args=["-scn", "file-admin,dir-handle"]), dict(name="kernel-files"), dict(name="orefa"), dict(name="kernel-orefa")],
         trusted=MODEL_TRUST + ["oracle: *os.File through OsFS in a chroot-ed child process on a fresh tmpfs directory"],
         assumptions=["file sizes far below 2^31", "one process; handles interleaved sequentially"],
         not_yet_proved=["OrefaFS handles: executable model tied by corr orefa and compared with os.File by corr kernel-orefa; theorems are stated for the MemFS handle model", "directory handles: one pass is proved (C02_readdir_batches); rewinding differs from os.File (recorded finding dir-handle-rewinds)"],
     ),
     "C03": dict(
         props_files=["Avfs/Props/C03.lean"],
-        parts=[dict(name="memfs-perm"), dict(name="memfs-small"), dict(name="kernel-small", only_tier="thorough"), dict(name="kernel-perm")],
+        parts=[dict(name="memfs-perm"), dict(name="memfs-small"), dict(name="kernel-small", only_tier="thorough", args=["-scn", "file-other,file-owner-readonly,file-group,removeall-foreign-subdir,removeall-sticky"]), dict(name="kernel-perm")],
         trusted=MODEL_TRUST,
         assumptions=["one group per user, no ACLs, no capabilities other than the administrator's override"],
         trusted_extra=["oracle: the Linux kernel in a chroot-ed child on tmpfs acting under setfsuid/setfsgid (raw per-thread syscalls, supplementary groups dropped) for every generated user"],
@@ -140,13 +140,13 @@ PROPS = {
         not_yet_proved=[],
     ),
     "C13": dict(
-        props_files=["Avfs/Props/C13.lean"],
+        props_files=["Avfs/Props/C13.lean", "Avfs/Props/C13_match.lean"],
         tags="verif,avfs_setostype",
         parts=[dict(name="path")],
         trusted=["modelled, not verified: strings.EqualFold as ASCII case folding (generator alphabet has no other cased runes); utf8.DecodeRuneInString re-implemented in Lean and compared on every run",
                  "oracle: the toolchain's path/filepath on the Linux host (Linux); for Windows the toolchain's own Windows implementation (GOROOT/src/internal/filepathlite/path_windows.go, path/filepath/{path,path_windows,match}.go) retargeted mechanically on every run by harness/cmd/winx (declarations copied verbatim; runtime.GOOS, os.PathSeparator, os.IsPathSeparator and internal/* helpers rewritten; every loop given an iteration budget because the toolchain's Windows Rel does not terminate on some UNC inputs); Abs on Windows is compared with its documented meaning (Clean / Join with the current directory), syscall.FullPath having no counterpart"],
         assumptions=["string lengths far below 2^31", "SplitAbs is only required to work on absolute paths (its documented precondition)"],
-        not_yet_proved=["match_eq_spec", "rel_join", "Windows: theorems beyond length/inverse laws (executable model + correspondence only)"],
+        not_yet_proved=["Match = declarative glob semantics is proved for both OS types under the explicit decidable hypothesis Safe (only literals between two stars, or: the name has runes of at most 2 bytes and no class can match a separator in it); `true` and ErrBadPattern answers are proved right with NO hypothesis (C13_match_true_sound, C13_match_bad_sound); outside Safe a `false` answer of the non-backtracking star loop can be wrong — as filepath.Match's is (kernel-checked witnesses needSafe_*), so the oracle comparison agrees", "rel_join", "Windows: theorems beyond length/inverse laws and Match (executable model + correspondence only)"],
     ),
     "C15": dict(
         props_files=["Avfs/Props/C15.lean"],
